@@ -241,10 +241,10 @@ PROPS["C13"] = {
 PROPS["C17"] = {
     "verus_units": ["resolve_names", "use_tables", "resolve_walk"],
     "replay": "privacy",
-    "floor": {"obligations": 32},
+    "floor": {"obligations": 34},
     "trusted_base": [
         "mangling model: `mangle`/`unmangle` uninterpreted with unmangle(mangle(p)) == p and mangle([s]) == s ASSUMED (a `$` inside a user identifier would break it: that is property C16's concern); helpers vx_mangle / vx_mangle2 / extract_path_from_mangled / vx_split_mangled stand for the `as_str()/join(\"$\")/split('$')/format!/to_symbol` string code",
-        "is_locally_bound is PROVED (rule N18 turns `iter().rev().any(..)` into the reverse index loop it denotes); ASSUMED contracts: vx_find_relative (the (1..=n).rev().map(..).find(..) chain of convert_var), vx_is_op_intrinsic (slice pattern + string tests for the reserved operator namespace)",
+        "is_locally_bound is PROVED (rule N18 turns `iter().rev().any(..)` into the reverse index loop it denotes); the module-relative chain of convert_var `(1..=n).rev().map(..).find(..)` is PROVED as the function vx_find_relative (rule X5 cuts the expression, rule N19 turns it into the downward loop it denotes: the innermost enclosing module that defines the name wins); ASSUMED contracts: vx_is_op_intrinsic (slice pattern + string tests for the reserved operator namespace)",
         "derived PartialEq/Eq/Hash on Symbol(usize): structural, lawful hash key; Location / ExprNodeId opaque; `Expr` modelled by its `Var` variant with `var_of(into_id(Var(s))) == s`",
         "unit resolve_walk: the Let / LetRec / Lambda arms of convert_expr (rule X4; `OPT.map(|t| ..)` with a captured `&mut` desugared by N16 into a match); `Expr` modelled by these three variants, Pattern opaque with an uninterpreted set of bound names; push_scope / pop_scope / bind_local / bind_pattern_locals as scope-stack transformers (ASSUMED: 3-line functions over Vec<HashSet>); find_pattern_module_context / module_context_map.get as uninterpreted lookups; ASSUMED induction hypothesis + ghost call record for the recursive convert_expr",
         "unit use_tables, rule X4 (match arm re-headed as a function: pattern bindings and free variables become parameters, `continue` -> `return None` justified by the literal `if let Some(stmts) = stmts { result.extend(stmts); }` after the match, checked on every run); in the fn arm the statements building the function type and the lambda are replaced by opaque values; `Statement` modelled by its LetRec variant; is_reserved_type_param_name uninterpreted",
@@ -257,7 +257,7 @@ PROPS["C17"] = {
         "convert_expr apart from its Let / LetRec / Lambda / Match arms (those four are under contract, unit resolve_walk, relative to the induction hypothesis that a recursive conversion restores module context and scopes; the other ~24 arms, which only recurse, are not) and pass 1 (collect_defined_names)",
         "'every accepted reference resolves to the unique definition its module path denotes': only the resolved-path/alias-target relation of convert_qualified_var and resolve_qualified_path is proved",
     ],
-    "explanation": "C17 resolution pass: is_within_module_hierarchy is exactly path-prefix (segment by segment) of the owning module in the current module; resolve_alias_chain terminates and returns a member of the alias chain; resolve_through_wildcards never yields a member whose visibility entry says private; resolve_qualified_path returns the written or module-relative path whose mangled name it returns; convert_qualified_var and convert_var report PrivateMemberAccess for every private member reached from outside its module hierarchy through a qualified path, a use alias, a multi-import, a re-export chain, a wildcard or module-relative resolution, and local bindings shadow imports. Unit resolve_walk: `let` resolves its right-hand side in the module of the definition (module-level let) or else in the enclosing one, and the REST of the chain in the enclosing module context with the pattern's names bound in a new scope (finding F12: the module context used to leak into the rest of the file; repaired); `letrec` binds the function's own name for body and continuation and resolves the body in the function's module; a lambda binds every parameter in a new innermost scope; all three restore context and scopes. Unit use_tables (ast/program.rs): a `use` statement writes only the alias / visibility / wildcard tables (frame); a non-public `use` (single or multi-import) never changes any visibility entry; `pub use` adds exactly the entries `<current module>::<alias> -> public` and keeps every other entry -- in particular it never marks its target public; every alias entry written names the written path or that path relative to the current module (resolve_qualified_path); a wildcard import records exactly one base name and changes no table entry; mangle_qualified_name is prefix ++ [name] under the mangling model; the three declaration arms of stmts_from_program_with_prefix (fn / type alias / type declaration, cut as functions by rule X4) file the visibility entry under mangle(prefix ++ [name]) with value `visibility == Public`, record the module context, touch no alias entry, and the function arm emits a definition named exactly that mangled name.",
+    "explanation": "C17 resolution pass: is_within_module_hierarchy is exactly path-prefix (segment by segment) of the owning module in the current module; resolve_alias_chain terminates and returns a member of the alias chain; resolve_through_wildcards never yields a member whose visibility entry says private; resolve_qualified_path returns the written or module-relative path whose mangled name it returns; convert_qualified_var and convert_var report PrivateMemberAccess for every private member reached from outside its module hierarchy through a qualified path, a use alias, a multi-import, a re-export chain, a wildcard or module-relative resolution, and local bindings shadow imports (is_locally_bound proved); module-relative resolution picks the innermost enclosing module that defines the name (proved). Unit resolve_walk: `let` resolves its right-hand side in the module of the definition (module-level let) or else in the enclosing one, and the REST of the chain in the enclosing module context with the pattern's names bound in a new scope (finding F12: the module context used to leak into the rest of the file; repaired); `letrec` binds the function's own name for body and continuation and resolves the body in the function's module; a lambda binds every parameter in a new innermost scope; all three restore context and scopes. Unit use_tables (ast/program.rs): a `use` statement writes only the alias / visibility / wildcard tables (frame); a non-public `use` (single or multi-import) never changes any visibility entry; `pub use` adds exactly the entries `<current module>::<alias> -> public` and keeps every other entry -- in particular it never marks its target public; every alias entry written names the written path or that path relative to the current module (resolve_qualified_path); a wildcard import records exactly one base name and changes no table entry; mangle_qualified_name is prefix ++ [name] under the mangling model; the three declaration arms of stmts_from_program_with_prefix (fn / type alias / type declaration, cut as functions by rule X4) file the visibility entry under mangle(prefix ++ [name]) with value `visibility == Public`, record the module context, touch no alias entry, and the function arm emits a definition named exactly that mangled name.",
     "samples": [
         {"obligation": "process_use_statement::ensures", "clause": "vis_after(old.visibility_map, new.visibility_map, public, prefix, aliases) && alias_after(..) && frame_ok"},
         {"obligation": "convert_qualified_var::ensures", "clause": "is_private(mangle(rp)) && !within_hierarchy(ctx, rp) ==> has_private_error(errors', rp); same for the alias-chain target (re-export route)"},
